@@ -337,9 +337,9 @@ def g_leaf(rng, G):
     r = rng.random()
     if r < 0.40:
         return rng.choice(PURE)
-    if r < 0.47:
+    if r < 0.46:
         return fill(rng, rng.choice(ERR), G)
-    if r < 0.53:
+    if r < 0.54:
         return fill(rng, rng.choice(HALT), G)
     if r < 0.78:
         return fill(rng, rng.choice(INPUT), G)
@@ -845,7 +845,16 @@ def predict(R, c, home="/HOME", quirks=()):
     named = bindings(A)
     # order of $ARGS.named: command-line order within one option kind (several kinds: only with -S)
     order = {"arg": 0, "rawfile": 1, "slurpfile": 2, "argjson": 3}
-    by_kind = sorted(range(len(named)), key=lambda i: order[A["binds"][i]["kind"]])
+    cmdline = []
+    for i, a in enumerate(R["argv"]):
+        if a == "--":
+            break
+        if a in ("--arg", "--argjson", "--slurpfile", "--rawfile") and i + 1 < len(R["argv"]):
+            cmdline.append(R["argv"][i + 1])
+    names = [n for n, _ in named]
+    if sorted(cmdline) != sorted(names):
+        raise Unjudged("binding-order")
+    by_kind = sorted(range(len(named)), key=lambda i: (order[A["binds"][i]["kind"]], cmdline.index(names[i])))
     ARGS = {"o": [[enc(S("positional")), [enc(S(a)) for a in (A["args"] or [])]],
                   [enc(S("named")), {"o": [[enc(S(named[i][0])), named[i][1]] for i in by_kind]}]]}
     env = cli_env(A, home)
@@ -946,6 +955,12 @@ def predict(R, c, home="/HOME", quirks=()):
 # running the real binary
 # ---------------------------------------------------------------------------------------
 _JAQ = None
+
+
+def mon():
+    """per-process jaqmon client; the binary was built once by main() (no cargo call per worker)"""
+    p = os.environ.get("C17_JAQMON")
+    return par.client("verif", path=p) if p else par.client("verif")
 
 
 def jaq_path():
@@ -1263,10 +1278,11 @@ def shrink(R, c, scratch, tag, key):
     A = R["A"]
     ph0 = key.split("|")[0]
     best = R
+    best_res = None
     tries = 0
 
     def attempt(mod):
-        nonlocal best, tries
+        nonlocal best, best_res, tries
         if tries > 40:
             return
         A2 = json.loads(json.dumps(best["A"]))
@@ -1279,7 +1295,7 @@ def shrink(R, c, scratch, tag, key):
         r = judge(R2, c, scratch, "%s-s%d" % (tag, tries))
         if r["status"] == "viol" and r["key"].split("|")[0] == ph0:
             best = R2
-            best["_res"] = r
+            best_res = r
 
     def setter(k, v):
         def f(A2):
@@ -1306,7 +1322,7 @@ def shrink(R, c, scratch, tag, key):
         return f
     for i in (2, 1, 0):
         attempt(drop_source(i))
-    return best
+    return best_res
 
 
 # ---------------------------------------------------------------------------------------
@@ -1314,7 +1330,7 @@ def shrink(R, c, scratch, tag, key):
 # ---------------------------------------------------------------------------------------
 def task(t):
     seed, chunk, n, scratch, n_strace, shrink_cap = t
-    c = par.client("verif")
+    c = mon()
     out = {"n": 0, "status": {}, "why": {}, "exits": {}, "opts": {}, "scen": {}, "modes": {}, "viol": [],
            "main": 0, "input": 0, "outs": 0, "marks": 0, "distinct": [], "samples": [], "strace": {},
            "crashes": [], "tails": {}, "cons_cases": {"main-only": 0, "input-used": 0}}
@@ -1344,9 +1360,9 @@ def task(t):
             key, w = r["key"], r["witness"]
             if shrunk < shrink_cap and not r.get("known_shape") and not key.startswith("panic:"):
                 shrunk += 1
-                best = shrink(R, c, scratch, tag, key)
-                if "_res" in best:
-                    key, w = best["_res"]["key"], best["_res"]["witness"]
+                br = shrink(R, c, scratch, tag, key)
+                if br is not None:
+                    key, w = br["key"], br["witness"]
             out["viol"].append((key, w))
             continue
         out["exits"][str(r["exit"])] = out["exits"].get(str(r["exit"]), 0) + 1
@@ -1423,13 +1439,13 @@ def self_test(c):
 
 def main():
     run = Run("C17")
-    build.jaqmon("verif")
+    os.environ["C17_JAQMON"] = build.jaqmon("verif")
     jaq = build.cli()
     os.environ["C17_JAQ"] = jaq
     scratch = "/tmp/c17-%d-%d" % (os.getpid(), int(time.time()))
     os.makedirs(scratch, exist_ok=True)
     try:
-        c = par.client("verif")
+        c = mon()
         bad = self_test(c)
         if run.replay:
             rp = json.load(open(run.replay))
@@ -1460,7 +1476,11 @@ def main():
                 for k, v in out[f].items():
                     agg[f][k] = agg[f].get(k, 0) + v
             for key, w in out["viol"]:
-                run.violation(key, w)
+                if any(key.startswith(q) for q in QUIRKS.values()):
+                    for part in key.split("+"):      # several confirmed deviations in one invocation
+                        run.violation(part, w)
+                else:
+                    run.violation(key, w)
             main_c += out["main"]
             input_c += out["input"]
             outs += out["outs"]
